@@ -11,6 +11,8 @@
 package client
 
 import (
+	"time"
+
 	"github.com/sourcenetwork/immutable"
 )
 
@@ -77,6 +79,12 @@ func (val FieldValue) Bytes() ([]byte, error) {
 		value = convertImmutable(v)
 	} else {
 		value = val.value.Unwrap()
+	}
+
+	if t, ok := value.(time.Time); ok && t.IsZero() {
+		// the cbor encoder writes the zero time as null: the value would read back as "no value".
+		// Encode it the way every other time is encoded.
+		value = t.Format(time.RFC3339Nano)
 	}
 
 	return em.Marshal(value)
